@@ -153,6 +153,38 @@ pub fn run(r: &Report) {
             }
         }
     }
+    // transaction counts 252 / 253 / 65535 / 65536 (minimal transactions)
+    {
+        let tiny = RTx { version: 2, lock_time: 0, ins: vec![], outs: vec![] };
+        let lib_tiny = to_tx(&tiny);
+        let tw = ref_weight(&tiny);
+        let tl = tiny.enc_full().len();
+        for n in [252usize, 253, 65535, 65536] {
+            let h = &headers[n % headers.len()];
+            let lib = elements::Block { header: to_header(h), txdata: vec![lib_tiny.clone(); n] };
+            let mut hb = h.enc_full();
+            varint(&mut hb, n as u64);
+            let exp_size = hb.len() + n * tl;
+            let exp_w = 4 * hb.len() + n * tw;
+            r.eval(1);
+            r.state(1);
+            r.trans(2);
+            blocks += 1;
+            match guard(|| (lib.size(), lib.weight(), elements::encode::serialize(&lib).len())) {
+                Err(p) => r.violation("block/panic", json!({"tx_count": n}), p),
+                Ok((s, w, l)) => {
+                    r.trace(1);
+                    if s != exp_size || l != exp_size {
+                        r.violation(format!("block/size/tx-count-{}", n), json!({"tx_count": n}), format!("size()={} serialized={} reference={}", s, l, exp_size));
+                    }
+                    if w != exp_w {
+                        r.violation(format!("block/weight/tx-count-{}", n), json!({"tx_count": n}), format!("weight()={} reference={}", w, exp_w));
+                    }
+                    r.nontrivial(fnv(&(n as u64).to_le_bytes()) ^ 0xb10c);
+                }
+            }
+        }
+    }
     r.set_extra("blocks", json!(blocks));
     r.assume("payloads from fixed menus; reference encoder validated against the library on every generated value (C01 value side) and against pinned txids/block hashes (C02 self-test)");
 }
